@@ -15,7 +15,9 @@ def main():
                 "computed by TLC on the persisted world. Each program is evaluated in memory over the persisted objects and "
                 "translated with eql_to_sql and executed on the SQLite database holding them (once with the relationship path to "
                 "another table, and a sub-sample with a self-referential path); an(...) and the(...). Joins between two variables of different "
-                "classes through relationship attributes (SqlJoin.tla, 46 patterns): one row per binding, the() outcome. A translation is either "
+                "classes through relationship attributes (SqlJoin.tla, 46 patterns): one row per binding, the() outcome. Over a second database "
+                "(strings with LIKE wildcards, integers other than 0 / 1, an Optional integer): membership in collections and texts, a bare "
+                "non-boolean attribute as a condition, the tests `!= None` / `== None`; oracle = in-memory evaluation. A translation is either "
                 "rejected with an EQLTranslationError or must select exactly the reference rows. Non-trivial = an accepted program "
                 "with a connective; distinct by (program, variant).")
     conds = conditions(ctx, "EQLCore_gen_sql_d1.cfg", 200) + conditions(ctx, "EQLCore_gen_sql.cfg" if thorough else "EQLCore_gen_sql_q.cfg", 1000)
@@ -33,6 +35,9 @@ def main():
     satoms = ["in1", "in1t", "in2", "inC", "inE", "eqC", "neC1", "c1", "subT", "conT", "subU", "a0", "b1"]
     chain_cases += [{"satoms": [a], "op": "and"} for a in satoms]
     chain_cases += [{"satoms": [a, b], "op": op} for a in satoms[:11] for b in satoms if a != b for op in ("and", "or")]
+    natoms = ["bareA", "bareB", "wSet", "wNone"]
+    chain_cases += [{"satoms": [a], "op": "and"} for a in natoms]
+    chain_cases += [{"satoms": [a, b], "op": op} for a in natoms for b in natoms + ["a0", "b1", "eqC", "in2"] if a != b for op in ("and", "or")]
     # joins between two variables of different classes (SqlJoin.tla: the expected bag per pattern comes from TLC)
     ctx.run_tlc("SqlJoin", "SqlJoin_mc.cfg", expect="ok")
     ctx.run_tlc("SqlJoin", "SqlJoin_sw_CollapsePartners.cfg", expect="violation")
